@@ -555,8 +555,11 @@ impl BorshDeserialize for NaturalP {
     fn deserialize(bytes: &mut &[u8]) -> std::io::Result<Self> {
         let bytes = <Vec<u16>>::deserialize(bytes)?;
 
+        // digits come from untrusted input: a digit >= 256 is an error
         let num = Natural::from_digits_desc(&256u16, bytes.into_iter())
-            .expect("impossible");
+            .ok_or_else(|| {
+                Error::new(ErrorKind::InvalidData, "Digit out of range")
+            })?;
         Ok(NaturalP(num))
     }
 }
